@@ -143,6 +143,10 @@ impl Interface for ScriptLink {
 
 type Proto = Protocol<'static, ScriptLink>;
 
+thread_local! {
+    static DEPTH: Cell<u32> = Cell::new(0);
+}
+
 #[derive(Clone, Debug)]
 enum Beh {
     Plain,
@@ -206,8 +210,15 @@ fn make_handler(sim: &Sim, name: &'static str, h: &MHandler, hlog: &Rc<RefCell<H
         let seq = sim.steps();
         hlog.borrow_mut().fired.push((token, p.clone(), seq));
         if let Beh::Sender(out) = &beh {
-            sim.count("handler_sent_from_delivery");
-            let _ = proto.send_packet(out);
+            // a defect that loops transmitted packets back into the handlers must show up as
+            // a wrong fan-out, not as a stack overflow of the worker
+            let depth = DEPTH.with(|d| d.get());
+            if depth < 3 {
+                DEPTH.with(|d| d.set(depth + 1));
+                sim.count("handler_sent_from_delivery");
+                let _ = proto.send_packet(out);
+                DEPTH.with(|d| d.set(depth));
+            }
         }
     })
 }
@@ -375,6 +386,20 @@ fn multiset_eq(a: &[Packet], b: &[Packet]) -> bool {
     true
 }
 
+fn multiset_included(a: &[Packet], b: &[Packet]) -> bool {
+    let mut used = vec![false; b.len()];
+    'outer: for x in a {
+        for (i, y) in b.iter().enumerate() {
+            if !used[i] && packet_eq(x, y) {
+                used[i] = true;
+                continue 'outer;
+            }
+        }
+        return false;
+    }
+    true
+}
+
 fn gen_app_packet(sim: &Sim, addr: u16, tag: u32) -> Packet {
     let len = sim.pick(&[4usize, 0, 2, 9, 14, 30]);
     let mut data = fill_pattern(sim.pick(&[6u32, 3, 1]), tag, len);
@@ -389,6 +414,15 @@ fn gen_app_packet(sim: &Sim, addr: u16, tag: u32) -> Packet {
     };
     sanitize(&mut p);
     p
+}
+
+fn other_addr_not_broadcast(sim: &Sim, own: u16) -> u16 {
+    let a = sim.pick(&[0x0202u16, 0x0000, 0xfffe, 0x0001]);
+    if a == own {
+        a ^ 0x0100
+    } else {
+        a
+    }
 }
 
 fn other_addr(sim: &Sim, own: u16) -> u16 {
@@ -426,6 +460,8 @@ pub fn run(sim: &Sim, prop: &str, tier: Tier) -> Outcome {
     let mut ops_log: Vec<String> = Vec::new();
     let mut pending_reveal = false;
     let mut id_reused = false;
+    let mut seen_own: BTreeSet<u32> = BTreeSet::new();
+    let mut seen_foreign: BTreeSet<u32> = BTreeSet::new();
 
     let mut i = 0;
     while i < n_ops {
@@ -565,10 +601,13 @@ pub fn run(sim: &Sim, prop: &str, tier: Tier) -> Outcome {
             }
             // --------------------------------------------------- reveal
             _ => {
-                // one own-address packet through tick and one through the loop-back path
+                // one own-address packet through tick, one through the loop-back path, and one
+                // foreign-address packet through tick (for the capture-all handlers)
                 let p1 = gen_app_packet(sim, own, 0x100 + i);
                 let p2 = gen_app_packet(sim, own, 0x200 + i);
-                let mut fired_any: BTreeSet<u32> = BTreeSet::new();
+                let p3 = gen_app_packet(sim, other_addr_not_broadcast(sim, own), 0x280 + i);
+                let mut fired_own: BTreeSet<u32> = BTreeSet::new();
+                let mut fired_foreign: BTreeSet<u32> = BTreeSet::new();
                 let mut dead_fired: Option<(u32, &'static str)> = None;
                 // tick path
                 node.link.borrow_mut().rx.push_front(RxItem::Pkt(p1.clone()));
@@ -581,16 +620,23 @@ pub fn run(sim: &Sim, prop: &str, tier: Tier) -> Outcome {
                 node.link.borrow_mut().next_send_err = None;
                 let d2 = take_logs(&node);
                 sim.event(EV_OP, 6, d2.fired.len() as u64, || format!("reveal via send_packet({}) -> {}", show_packet(&p2), show_perr(&r2)));
-                for (t, _, _) in d1.fired.iter() {
-                    fired_any.insert(*t);
-                    if model.dead.contains(t) {
-                        dead_fired = Some((*t, "tick"));
-                    }
-                }
-                for (t, _, _) in d2.fired.iter() {
-                    fired_any.insert(*t);
-                    if model.dead.contains(t) {
-                        dead_fired = Some((*t, "loop-back send"));
+                // foreign-address packet through tick
+                node.link.borrow_mut().rx.push_front(RxItem::Pkt(p3.clone()));
+                let r3 = sut(|| node.proto.tick());
+                let d3 = take_logs(&node);
+                sim.event(EV_OP, 10, d3.fired.len() as u64, || format!("reveal via tick({}) [foreign address] -> {}", show_packet(&p3), show_perr(&r3)));
+                for (d, via, own_path) in [(&d1, "tick", true), (&d2, "loop-back send", true), (&d3, "tick (foreign address)", false)] {
+                    for (t, p, _) in d.fired.iter() {
+                        // (handlers that transmit may be re-entered by a defect: only direct deliveries count)
+                        if own_path && (packet_eq(p, &p1) || packet_eq(p, &p2)) {
+                            fired_own.insert(*t);
+                        }
+                        if !own_path && packet_eq(p, &p3) {
+                            fired_foreign.insert(*t);
+                        }
+                        if model.dead.contains(t) {
+                            dead_fired = Some((*t, via));
+                        }
                     }
                 }
                 if let Some((t, via)) = dead_fired {
@@ -601,11 +647,26 @@ pub fn run(sim: &Sim, prop: &str, tier: Tier) -> Outcome {
                         "removed-handler-invoked".to_string(),
                     );
                 }
-                // a live handler must fire on at least one of the two paths; if it fires on
-                // neither, the registry itself is asked
+                // A live handler must fire on at least one of the two own-address paths. One that
+                // fired at an earlier reveal and no longer does was silenced by an operation on
+                // another handler (history-dependent: C17). One that never fired at all is
+                // attributed by asking the registry itself.
                 for (id, h) in model.live.iter() {
-                    if !fired_any.contains(&h.token) {
+                    if !fired_own.contains(&h.token) {
                         let id = *id;
+                        if seen_own.contains(&h.token) {
+                            return fail(
+                                prop,
+                                "C17.keep",
+                                format!(
+                                    "handler #{} (id {}) was invoked for own-address packets earlier, was never removed, and is no longer invoked after operations on other handlers; history: {}",
+                                    h.token,
+                                    id,
+                                    ops_log.join(" ")
+                                ),
+                                "live-handler-stopped-firing".to_string(),
+                            );
+                        }
                         let r = sut(|| node.proto.remove_packet_handler(id));
                         return match r {
                             Ok(Ok(())) => fail(
@@ -618,7 +679,7 @@ pub fn run(sim: &Sim, prop: &str, tier: Tier) -> Outcome {
                                 prop,
                                 "C17.keep",
                                 format!(
-                                    "handler #{} (id {}) was registered and never removed, but it no longer fires and removing its id reports {:?}; history: {}",
+                                    "handler #{} (id {}) was registered and never removed, but it does not fire and removing its id reports {:?}; history: {}",
                                     h.token,
                                     id,
                                     other,
@@ -627,6 +688,27 @@ pub fn run(sim: &Sim, prop: &str, tier: Tier) -> Outcome {
                                 "live-handler-lost".to_string(),
                             ),
                         };
+                    }
+                    if h.capture_all && !fired_foreign.contains(&h.token) && seen_foreign.contains(&h.token) {
+                        return fail(
+                            prop,
+                            "C17.keep",
+                            format!(
+                                "capture-all handler #{} (id {}) was invoked for foreign-address packets earlier, was never removed, and is no longer invoked for them after operations on other handlers; history: {}",
+                                h.token,
+                                id,
+                                ops_log.join(" ")
+                            ),
+                            "capture-all-handler-stopped-firing".to_string(),
+                        );
+                    }
+                }
+                seen_own.extend(fired_own.iter().copied());
+                seen_foreign.extend(fired_foreign.iter().copied());
+                if prop == "C15" {
+                    let exp = expected_tokens(&model, false);
+                    if let Some((c, m, s)) = judge_fanout(&mut node, &model, Path::Tick, &p3, &exp, &d3) {
+                        return fail(prop, c, m, s);
                     }
                 }
                 // the two reveal deliveries are ordinary deliveries for C15 / C16
@@ -773,7 +855,9 @@ fn op_tick(sim: &Sim, prop: &str, node: &mut Node, model: &Model, forced: Option
             // re-entrant transmissions of the eligible handlers
             let want = expected_reent(model, &exp);
             let got: Vec<Packet> = d.sent.iter().map(|(p, _, _)| p.clone()).collect();
-            if !multiset_eq(&want, &got) {
+            // every transmission made by an eligible handler must reach the link (how often a
+            // packet is handed to the link is C16's subject, not C15's)
+            if !multiset_included(&want, &got) {
                 return Some(fail(
                     prop,
                     "C15.reent",
@@ -1062,13 +1146,25 @@ fn run_exchange(sim: &Sim, prop: &str, tier: Tier) -> Outcome {
             }
         }
 
+        // ---- reference: an ordinary send of the same request on the twin node
+        y.link.borrow_mut().next_send_err = if has_loop_senders(&hs, req_addr, own) { None } else { Some(send_fails) };
+        let ry = sut(|| y.proto.send_packet(&request));
+        y.link.borrow_mut().next_send_err = None;
+        let dy = take_logs(&y);
+
+        if let Err(c) = &ry {
+            return Outcome::Foreign("C16.tx", format!("ordinary send crashed: {:?}", c));
+        }
+        // whether the request could be routed is taken from the ordinary send itself
+        let send_failed = matches!(ry, Ok(Err(_)));
+
         // ---- model: what must come back, and what must remain on the link
         let mut expect_events: Vec<AnyEvent> = Vec::new();
         let mut consumed = 0usize;
         let mut expect_err: Option<u32> = None;
         let mut expect_timeout = false;
         let mut hit_end = true;
-        if send_fails.is_none() {
+        if !send_failed {
             for (idx, it) in queue.iter().enumerate() {
                 consumed = idx + 1;
                 match it {
@@ -1111,12 +1207,6 @@ fn run_exchange(sim: &Sim, prop: &str, tier: Tier) -> Outcome {
             consumed = 0;
         }
         let remaining: Vec<RxItem> = queue[consumed..].to_vec();
-
-        // ---- reference: an ordinary send of the same request on the twin node
-        y.link.borrow_mut().next_send_err = if has_loop_senders(&hs, req_addr, own) { None } else { Some(send_fails) };
-        let ry = sut(|| y.proto.send_packet(&request));
-        y.link.borrow_mut().next_send_err = None;
-        let dy = take_logs(&y);
 
         // ---- the exchange
         x.link.borrow_mut().rx = queue.iter().cloned().collect();
@@ -1167,10 +1257,6 @@ fn run_exchange(sim: &Sim, prop: &str, tier: Tier) -> Outcome {
                 )
             }
         };
-        if let Err(c) = &ry {
-            return Outcome::Foreign("C16.tx", format!("ordinary send crashed: {:?}", c));
-        }
-
         // C18.route: same local deliveries and same transmissions as the ordinary send
         let fx: Vec<(u32, u64)> = dx.fired.iter().map(|(t, p, _)| (*t, hash_packet(p))).collect();
         let fy: Vec<(u32, u64)> = dy.fired.iter().map(|(t, p, _)| (*t, hash_packet(p))).collect();
@@ -1196,7 +1282,6 @@ fn run_exchange(sim: &Sim, prop: &str, tier: Tier) -> Outcome {
                 "routed-differently".to_string(),
             );
         }
-        let send_failed = matches!(ry, Ok(Err(_)));
         if send_failed {
             // the routing failed: the error is returned, nothing else happens
             let same = match (&got, &ry) {
